@@ -38,6 +38,7 @@ func init() {
 			{ID: "C09.R15", Floor: 12, Run: c11r2, Text: "the removal event is delivered inside a lock window (= C11.R2), whatever the listener subscribes to"},
 			{ID: "C09.R16", Floor: 1, Run: noNarrowParamSums, Text: "sums with caller-supplied values are at least 64 bits wide in Query methods (= C03.R18): a step beyond the end exhausts the query and releases its lock"},
 			{ID: "C09.R17", Floor: 1, Run: closeGuarded, Text: "closing is guarded by the query's own state: the release of a Query's lock bit is dominated by a test of a field of that query"},
+			{ID: "C09.R18", Floor: 1, Run: compileGuardFlag, Text: "a generic filter counts as compiled only after a compilation that ran to its end: every early return of Compile lies where a bool field is known true that Compile sets after its last call; a compilation that panicked in a locked world is repeated, not half-used with the lock taken"},
 		},
 	})
 }
